@@ -511,6 +511,8 @@ def c14_stall_oracle(line, res):
 
 def c14_stall_compare(ir, mr):
     a, b = _res(ir), _res(mr)
+    if b.get("res") == "ANY":      # known finding K8: late or not, depending on how the retries are spread
+        return True
     return a.get("res") == b.get("res") and a.get("late") == b.get("late")
 
 
